@@ -107,6 +107,7 @@ class Target:
         self.connections = {}               # tuple(cid) -> {"size":, "serial": (csn, vid, vsn), "last_seq": None}
         self.next_cid = [0x01, 0x02, 0x03, 0x04]
         self.clock_us = 1_600_000_000_000_000
+        self.clock_bytes = None
         self.log = []                       # (transport, service, segments, data)  transport in "ucmm","ucsend","connected"
         self.violations = []                # protocol violations by the client (strings)
         self.frames = 0
@@ -114,6 +115,7 @@ class Target:
         self.writes = []                    # (tag name, byte offset, [bytes]) applied
         self.page_i = 0
         self.reachable = True
+        self.generic_hook = None            # optional: fn(service, segments, data, transport) -> CIP reply bytes or None
 
     # ------------------------------------------------------------------ encapsulation
     def handle(self, frame):
@@ -298,6 +300,10 @@ class Target:
 
     def execute(self, svc, segs, data, transport, cap, route=None):
         self.log.append((transport, svc, segs, data, route))
+        if self.generic_hook is not None:
+            r = self.generic_hook(svc, segs, data, transport)
+            if r is not None:
+                return r
         if not segs:
             return eip.cip_reply(svc, 0x04)
         head = segs[0]
@@ -360,12 +366,13 @@ class Target:
         if svc == 0x03:     # get attribute list
             if data != [1, 0, 0x0B, 0]:
                 return eip.cip_reply(svc, 0x09)
-            return eip.cip_reply(svc, 0, [1, 0, 0x0B, 0, 0, 0] + le(self.clock_us, 8))
+            return eip.cip_reply(svc, 0, [1, 0, 0x0B, 0, 0, 0] + (list(self.clock_bytes) if self.clock_bytes is not None else le(self.clock_us, 8)))
         if svc == 0x04:     # set attribute list: count, attr 6, ULINT microseconds
             if len(data) != 12 or data[:4] != [1, 0, 6, 0]:
                 self.violations.append("set wall clock: malformed attribute list")
                 return eip.cip_reply(svc, 0x13)
             self.clock_us = sum(data[4 + i] * (1 << (8 * i)) for i in range(8))
+            self.clock_bytes = list(data[4:12])
             return eip.cip_reply(svc, 0, [1, 0, 6, 0, 0, 0])
         return eip.cip_reply(svc, 0x08)
 
